@@ -11,6 +11,9 @@ Segs(lo, hi, n) == {IntervalsOf(SortSet(X \cup {lo, hi})) : X \in {Y \in SUBSET 
 Note == [on : {0, 1}, dur : {1, 3}, p : {0, 40}]
 Voic == {<<0, 1>>, <<1, 2>>, <<1, 1>>}
 Cents == {0, 1000, 1020, 1060, 2200, 2260}
+CentsM == IF N >= 3 THEN {0, 1000, 1060, 2260} ELSE Cents      \* thinner alphabet for three frames
+(* one melody frame of both sides: the reference has a pitch exactly where it is voiced *)
+MelFrame == {[rv |-> a, rc |-> b, ev |-> c, ec |-> d] : a \in Voic, b \in CentsM, c \in Voic, d \in CentsM} \ {x \in [rv : Voic, rc : CentsM, ev : Voic, ec : CentsM] : ~(x.rc = 0 <=> x.rv[1] = 0)}
 Init == /\ out = <<>> /\ pc = "in"
         /\ CASE Kind = "onset" -> inp \in [ref : Ev, est : Ev, w : W]
              [] Kind = "detect" -> inp \in [ref : Segs(0, P, N), est : UNION {Segs(a, b, N) : a \in {0, 1}, b \in {P - 1, P}}, w : W, trim : BOOLEAN, b2 : Betas]
@@ -23,9 +26,9 @@ Init == /\ out = <<>> /\ pc = "in"
                                   /\ (inp.r1 > 0 \/ inp.r2 > 0)
              [] Kind = "align" -> inp \in [ref : (SortedSeqs(0..P, N) \ {<<>>}), est : (SortedSeqs(0..P, N) \ {<<>>}), w : W, dur : {0, P + 1}]
                                   /\ Len(inp.ref) = Len(inp.est)
-             [] Kind = "melody" -> inp \in [rv : SeqsUpTo(Voic, N), ev : SeqsUpTo(Voic, N), rc : SeqsUpTo(Cents, N), ec : SeqsUpTo(Cents, N), tol : {30, 50}]
-                                   /\ Len(inp.rv) = Len(inp.ev) /\ Len(inp.rv) = Len(inp.rc) /\ Len(inp.rv) = Len(inp.ec)
-                                   /\ \A k \in 1..Len(inp.rv) : (inp.rc[k] = 0 <=> inp.rv[k][1] = 0)     \* a pitch exactly where the reference is voiced
+             [] Kind = "melody" -> \E n \in 0..N : \E f \in [1..n -> MelFrame], tl \in {30, 50} :
+                                     inp = [rv |-> [k \in 1..n |-> f[k].rv], rc |-> [k \in 1..n |-> f[k].rc],
+                                            ev |-> [k \in 1..n |-> f[k].ev], ec |-> [k \in 1..n |-> f[k].ec], tol |-> tl]
 Q(x) == [p |-> x.p, r |-> x.r, f |-> x.f]
 Solve == /\ pc = "in" /\ pc' = "out" /\ UNCHANGED inp
          /\ out' = CASE Kind = "onset" -> [prf |-> Q(EventPRF(inp.ref, inp.est, inp.w, <<1, 1>>))]
